@@ -61,6 +61,11 @@ pub enum Strategy {
     CounterPrefix { prefix: u64 },
     /// the first 40 bytes drawn (the salt) are given; everything else honest
     ForcedSalt { salt: Vec<u8> },
+    /// honest, except that output positions [lo, hi) (counted over everything the generator
+    /// hands out: one per byte of fill_bytes, one per next_u32) come from a stream determined
+    /// by `shared_seed` alone: two generators with different labels and the same window agree
+    /// exactly there and are independent everywhere else
+    SharedWindow { lo: u64, hi: u64, shared_seed: u64 },
 }
 
 impl Strategy {
@@ -73,6 +78,7 @@ impl Strategy {
             Strategy::ConstPrefix { byte, prefix } => format!("const-{:02x}-{}", byte, prefix),
             Strategy::CounterPrefix { prefix } => format!("counter-{}", prefix),
             Strategy::ForcedSalt { .. } => "forced-salt".into(),
+            Strategy::SharedWindow { lo, hi, .. } => format!("shared-window-{}-{}", lo, hi),
         }
     }
 }
@@ -90,6 +96,8 @@ pub struct ScriptedRng {
     pub first_fill: Option<Vec<u8>>,
     cur_force: bool,
     aux: ChaCha20Rng,
+    shared: Option<ChaCha20Rng>,
+    outpos: u64,
 }
 
 impl ScriptedRng {
@@ -97,6 +105,8 @@ impl ScriptedRng {
         ScriptedRng {
             honest: rng_for(seed, label),
             aux: rng_for(seed, &format!("{}-aux", label)),
+            shared: if let Strategy::SharedWindow { shared_seed, .. } = &strategy { Some(rng_for(*shared_seed, "shared-window")) } else { None },
+            outpos: 0,
             strategy,
             pos: 0,
             total_u32: 0,
@@ -116,8 +126,20 @@ impl ScriptedRng {
             Strategy::ZeroBase { groups } => group < *groups,
             Strategy::ConstPrefix { prefix, .. } => self.total_u32 < *prefix,
             Strategy::CounterPrefix { prefix } => self.total_u32 < *prefix,
-            Strategy::ForcedSalt { .. } => false,
+            Strategy::ForcedSalt { .. } | Strategy::SharedWindow { .. } => false,
         }
+    }
+    /// the shared stream advances with every output position; inside the window its byte wins
+    fn window_byte(&mut self, own: u8) -> u8 {
+        let p = self.outpos;
+        self.outpos += 1;
+        if let (Some(sh), Strategy::SharedWindow { lo, hi, .. }) = (self.shared.as_mut(), &self.strategy) {
+            let b = sh.next_u32() as u8;
+            if p >= *lo && p < *hi {
+                return b;
+            }
+        }
+        own
     }
     fn draw_byte(&mut self) -> u8 {
         let slot = self.total_u32 % 17; // 0..8 base, 9 sign, 10..16 bernoulli
@@ -160,9 +182,10 @@ impl ScriptedRng {
                 }
                 Strategy::ConstPrefix { byte, .. } => byte,
                 Strategy::CounterPrefix { .. } => self.total_u32 as u8,
-                Strategy::Honest | Strategy::ForcedSalt { .. } => honest as u8,
+                Strategy::Honest | Strategy::ForcedSalt { .. } | Strategy::SharedWindow { .. } => honest as u8,
             }
         };
+        let out = self.window_byte(out);
         self.total_u32 += 1;
         self.pos += 1;
         out
@@ -192,6 +215,11 @@ impl RngCore for ScriptedRng {
         if let Strategy::ForcedSalt { salt } = &self.strategy {
             if self.fills == 0 && dest.len() == salt.len() {
                 dest.copy_from_slice(salt);
+            }
+        }
+        if self.shared.is_some() {
+            for d in dest.iter_mut() {
+                *d = self.window_byte(*d);
             }
         }
         if self.first_fill.is_none() {
